@@ -19,7 +19,7 @@ ReqsC == {Rq(m, p, o, rm, rh) : m \in {"GET", "HEAD", "POST", "OPTIONS", "PUT", 
                                 o \in {"", O1, O2, "https://evil.example", "HTTPS://O1.EXAMPLE"},
                                 rm \in {"", "POST", "DELETE", "post"},
                                 rh \in {"-", "", "Content-Type", "content-type", "X-Evil", "Content-Type , x-a", " X-A,content-TYPE ", "X-A,,Content-Type",
-                                       "Content", "ontent-Typ", "X-", "content-type,x-evil", "x-client-id", "X-CLIENT-ID, x-csrf-token"}}
+                                       "Content", "ontent-Typ", "X-", "content-type,x-evil", "x-client-id", "X-CLIENT-ID, x-csrf-token", "Accept", "accept-language, x-a"}}
 BaseOps == <<[op |-> "handle", pat |-> "/a", methods |-> <<"GET", "POST">>, mws |-> <<>>, chain |-> <<>>, res |-> FALSE],
              [op |-> "handle", pat |-> "/b", methods |-> <<"DELETE">>, mws |-> <<>>, chain |-> <<>>, res |-> FALSE]>>
 
@@ -35,7 +35,9 @@ Hd(p, ms) == [op |-> "handle", pat |-> p, methods |-> ms, mws |-> <<>>, chain |-
 RmO(p, ms) == [op |-> "remove", pat |-> p, methods |-> ms, mws |-> <<>>, chain |-> <<>>, res |-> FALSE]
 Pre(p, rm) == Rq("OPTIONS", p, O1, rm, "Content-Type")
 DynOps == BaseOps \o <<Pre("/a", "POST"), Pre("/a", "DELETE"), Hd("/a", <<"DELETE">>), Pre("/a", "DELETE"), Pre("/a", "POST"), Rq("DELETE", "/a", O1, "", "-"),
-                        RmO("/a", <<"POST">>), Pre("/a", "POST"), Pre("/a", "DELETE"), Pre("/b", "DELETE"), Hd("/b", <<"PUT">>), Pre("/b", "PUT"),
+                        RmO("/a", <<"POST">>), Pre("/a", "POST"), Pre("/a", "DELETE"),
+                        RmO("/a", <<"DELETE">>), Hd("/a", <<"PUT">>), Pre("/a", "PUT"), Pre("/a", "DELETE"),   \* a SAME-SIZE change of the method set between two preflights
+                        Pre("/b", "DELETE"), Hd("/b", <<"PUT">>), Pre("/b", "PUT"),
                         RmO("/b", <<>>), Pre("/b", "PUT"), Hd("/b", <<"GET">>), Pre("/b", "GET"), Pre("/b", "HEAD"), Pre("/b", "DELETE"),
                         Hd("/c", <<"GET", "POST">>), Pre("/c", "GET"), RmO("/c", <<"GET", "HEAD">>), Pre("/c", "GET"), Pre("/c", "POST"), Pre("/c", "HEAD"),
                         RmO("/c", <<"OPTIONS", "POST">>), Pre("/c", "POST"), Rq("POST", "/c", O1, "", "-")>>
